@@ -35,6 +35,8 @@ def run(prog, rep):
     rep.part(given, prog, rep)
     rep.part(rng, prog, rep)
     rep.part(montecarlo, prog, rep)
+    rep.part(rejection, prog, rep)
+    rep.expect_min("C16.reject", 4)
     rep.expect_min("C16.mc", 6)
     rep.expect_min("C16.closed", 8)
     rep.expect_min("C16.wiring", 7)
@@ -354,6 +356,83 @@ def rng(prog, rep):
                 okg = True
     rep.check(okg, "C16.rng", f"{MM}.conditional_sample:generator", cs.where(), "rng = np.random.default_rng(random_state)",
               "the rejection sampler must draw from np.random.default_rng(random_state) only")
+
+
+def rejection(prog, rep):
+    """MultivariateModel.conditional_sample is a rejection sampler: candidates uniform on [lo, hi] x [0, f_max], accepted where
+    y < pdf(x).  The accepted x follow the conditional density only if f_max bounds the density on the SAME [lo, hi] the
+    candidates come from; the envelope must therefore be taken from a grid over exactly that interval (and be >= its maximum)."""
+    q = f"{JM}.MultivariateModel.conditional_sample"
+    fn = prog.func(q)
+    rep.analysed(fn)
+    b = builder(prog, fn, inline=False)
+    cfg = cfg_of(fn)
+    rng = ("call", G("numpy.random.default_rng"), (P("random_state"),), ())
+    draws = []
+    for st in cfg.all_stmts():
+        if isinstance(st, ast.Assign) and isinstance(st.targets[0], ast.Name) and isinstance(st.value, ast.Call):
+            t = b.term(st.value, st)
+            if t[0] == "call" and t[1] == ("attr", rng, "uniform") and len(t[2]) >= 2:
+                draws.append((st, t))
+    site = fn.where(draws[0][0]) if draws else fn.where()
+    if len(draws) != 2:
+        rep.fail("C16.reject", f"{q}:candidates", site, f"expected the two uniform candidate draws (abscissa, ordinate) from default_rng(random_state); found {len(draws)}")
+        return
+    loops = [cfg.enclosing_loops(st) for st, _ in draws]
+    same_loop = bool(loops[0]) and loops[0] == loops[1]
+    sizes = [dict(t[3]).get("size", t[2][2] if len(t[2]) > 2 else None) for _st, t in draws]
+    # which one is the ordinate: the one compared '<' against pdf(other)
+    acc = None
+    for st in cfg.all_stmts():
+        if isinstance(st, ast.Assign) and isinstance(st.value, ast.Compare) and len(st.value.ops) == 1 and isinstance(st.value.ops[0], (ast.Lt, ast.Gt)):
+            l, r = st.value.left, st.value.comparators[0]
+            if isinstance(st.value.ops[0], ast.Gt):
+                l, r = r, l
+            if isinstance(l, ast.Name) and isinstance(r, ast.Call) and len(r.args) == 1 and isinstance(r.args[0], ast.Name):
+                dy = [d.stmt for d in b.rd.reaching(l.id, cfg.node(st))]
+                dx = [d.stmt for d in b.rd.reaching(r.args[0].id, cfg.node(st))]
+                for (sx, tx), (sy, ty) in ((draws[0], draws[1]), (draws[1], draws[0])):
+                    if dx == [sx] and dy == [sy]:
+                        acc = (st, sx, tx, sy, ty, b.term(r.func, st), l.id, r.args[0].id)
+    rep.check(acc is not None and same_loop and sizes[0] is not None and sizes[0] == sizes[1], "C16.reject", f"{q}:accept", site,
+              "accept = y < pdf(x) on equally many (x, y) candidates drawn in the same iteration",
+              "the acceptance test must be 'ordinate candidate < pdf(abscissa candidate)' (strict) on the two candidate arrays of one iteration, drawn with the same size")
+    if acc is None:
+        return
+    st_a, sx, tx, sy, ty, pdf_t, yname, xname = acc
+    lo, hi = tx[2][0], tx[2][1]
+    f_min, f_max = ty[2][0], ty[2][1]
+    # kept points: x[accept]
+    kept = False
+    for st in cfg.all_stmts():
+        if isinstance(st, ast.Expr) and isinstance(st.value, ast.Call) and isinstance(st.value.func, ast.Attribute) and st.value.func.attr in ("append", "extend") and st.value.args:
+            a = st.value.args[0]
+            if isinstance(a, ast.Subscript) and isinstance(a.value, ast.Name) and a.value.id == xname and isinstance(a.slice, ast.Name) \
+                    and [d.stmt for d in b.rd.reaching(a.slice.id, cfg.node(st))] == [st_a] and [d.stmt for d in b.rd.reaching(xname, cfg.node(st))] == [sx]:
+                kept = True
+    rep.check(kept, "C16.reject", f"{q}:kept", fn.where(st_a), "the accepted abscissae x[accept] are kept",
+              "the sample must consist of the abscissa candidates selected by the acceptance mask of the same iteration")
+    rep.check(algebra.same(f_min, ("const", 0)), "C16.reject", f"{q}:floor", fn.where(sy), "ordinates start at 0",
+              f"ordinate candidates must be uniform on [0, f_max]; lower end found {show(f_min)[:40]}")
+    # envelope: f_max = c * max(pdf(grid over [lo, hi])), c >= 1
+    ok = False
+    why = f"the envelope must be c * max(pdf(linspace(lo, hi, N))) with c >= 1 on the candidates' own interval; found {show(f_max)[:200]}"
+    fm = f_max
+    c = 1.0
+    if fm[0] == "bin" and fm[1] == "*":
+        for u, w in ((fm[2], fm[3]), (fm[3], fm[2])):
+            if w[0] == "const" and isinstance(w[1], (int, float)):
+                fm, c = u, w[1]
+                break
+    if fm[0] == "call" and fm[1] in (G("numpy.max"), G("max"), G("numpy.amax")) and len(fm[2]) == 1 and fm[2][0][0] == "call" and fm[2][0][1] == pdf_t and len(fm[2][0][2]) == 1:
+        grid = fm[2][0][2][0]
+        bd = bind(grid) if grid[0] == "call" and grid[1] == G("numpy.linspace") else None
+        if bd:
+            ok = c >= 1 and bd.get("start") == lo and bd.get("stop") == hi and bd.get("endpoint", ("const", True)) == ("const", True)
+            why = (f"the envelope grid must span exactly the interval the abscissa candidates are drawn from - [{show(lo)[:40]}, {show(hi)[:80]}] - "
+                   f"with a factor >= 1; found grid [{show(bd.get('start', NONE))[:40]}, {show(bd.get('stop', NONE))[:80]}], factor {c}: "
+                   "where the grid is wider (coarser) or narrower than the candidate interval the density's peak can exceed f_max and the sample is flattened there")
+    rep.check(ok, "C16.reject", f"{q}:envelope", fn.where(sy), "f_max = c * max pdf over a grid on the candidates' own interval, c >= 1", why)
 
 
 def montecarlo(prog, rep):
